@@ -223,6 +223,16 @@ func formatCells(lines []formatLine) {
 // spaceAfterToken decides whether a particular subject token should have a
 // space after it when surrounded by the given before and after tokens.
 // "before" can be TokenNil, if the subject token is at the start of a sequence.
+// identContinuesNumber returns true if the given token is an identifier that
+// the scanner would take as the exponent part of a number literal if it
+// directly followed a number literal and a dot: "e" or "E" and then a digit.
+func identContinuesNumber(tok *Token) bool {
+	if tok.Type != hclsyntax.TokenIdent || len(tok.Bytes) < 2 {
+		return false
+	}
+	return (tok.Bytes[0] == 'e' || tok.Bytes[0] == 'E') && tok.Bytes[1] >= '0' && tok.Bytes[1] <= '9'
+}
+
 func spaceAfterToken(subject, before, after *Token) bool {
 	switch {
 
@@ -239,11 +249,12 @@ func spaceAfterToken(subject, before, after *Token) bool {
 		// Don't split namespace segments in a function call
 		return false
 
-	case subject.Type == hclsyntax.TokenDot && before.Type == hclsyntax.TokenNumberLit && after.Type == hclsyntax.TokenNumberLit:
+	case subject.Type == hclsyntax.TokenDot && before.Type == hclsyntax.TokenNumberLit && (after.Type == hclsyntax.TokenNumberLit || identContinuesNumber(after)):
 		// A dot written between two number literals (e.g. "1 .5", a legacy
 		// index applied to a number) must not be joined to both of them,
 		// because "1.5" would be scanned as a single number literal and so
-		// the formatted result would have a different meaning.
+		// the formatted result would have a different meaning. The same goes
+		// for a name that reads as an exponent, as in "1 .e5".
 		return true
 
 	case subject.Type == hclsyntax.TokenDot || after.Type == hclsyntax.TokenDot:
